@@ -1,6 +1,6 @@
 (* C02 -- Clean restart preserves exactly the closed contents (flat-index instantiation; the bucket
    chains are carried over by DBSim.v, the file implementations by C17). *)
-From Pogreb Require Import Base Flat Spec DB DBInv DBLemmas DBProofsRecovery.
+From Pogreb Require Import Base Flat Spec DB DBInv DBMeta DBLemmas DBProofsRecovery.
 
 (* Close writes a consistent checkpoint and releases the lock file with its LAST call *)
 Theorem C02_close_checkpoint : forall (P : params) (s : st) (m : mem),
@@ -18,14 +18,15 @@ Print Assumptions C02_close_checkpoint.
 (* for every history (every reachable state satisfies Inv): Close then Open takes the no-recovery
    path and yields the same contents, the same index, the same segments with the same metadata *)
 Theorem C02_clean_restart : forall (P : params) (seed' : N) (s : st) (m : mem),
-  params_ok P -> Inv P s -> s_mem s = Some m ->
+  params_ok P -> Inv P s -> s_mem s = Some m -> MetaOK s ->
   let '(s1, _) := db_close flat_ops s in
   let '(s2, o0) := db_open flat_ops P seed' (clear_trace s1) in
   o0 = OOpened false /\ Inv P s2 /\
   (forall k : key, sget (abs (s_disk s2)) k = sget (abs (s_disk s)) k) /\
   (exists m2 : mem, s_mem s2 = Some m2 /\ m_idx m2 = m_idx m /\
      (forall g : mseg, In g (m_segs m) -> In g (m_segs m2)) /\
-     m_seed m2 = (if ix_count flat_ops (m_idx m) =? 0 then seed' else m_seed m)).
+     m_seed m2 = (if ix_count flat_ops (m_idx m) =? 0 then seed' else m_seed m)) /\
+  MetaOK s2.
 Proof. exact close_reopen_ok. Qed.
 Print Assumptions C02_clean_restart.
 
